@@ -20,8 +20,9 @@ def gen_poly(rng, quick=True, max_rows=None, max_cols=None, wide=False):
             bnds.append([0, 1])
         elif r < 0.55:
             c = rng.randint(-2, 3); bnds.append([c, c])            # degenerate
-        elif wide and r < 0.6:
-            bnds.append(rng.choice([[-32768, 32767], [0, 32767], [-100, 100]]))
+        elif wide and r < 0.75:
+            # the default integer range of the library (dtype="int" without bounds) and one-sided variants of it
+            bnds.append(rng.choice([[-32768, 32767], [-32768, 32767], [0, 32767], [-32768, rng.randint(-3, 5)], [rng.randint(-5, 3), 32767], [-100, 100]]))
         else:
             lo = rng.randint(-3, 2); bnds.append([lo, lo + rng.randint(1, 3)])
     rows = []
